@@ -60,7 +60,7 @@ def parse_params(text):
 
 def blank_rep(r):
     return dict(r=r['r'], sev=r['sev'], kind='other', ent=0, sh=0, locent=0, nameok=1, fn=0, args=[], argsok=1,
-                lo=0, n=0, pslots=[], lk=0, lst=[], det=[], seqpos=0, nomore=0)
+                lo=0, n=0, pslots=[], lk=0, lst=[], det=[], seqpos=0, nomore=0, mentions=[], ints=[], textok=1)
 
 def parse_report(r, sites):
     o = blank_rep(r)
@@ -173,6 +173,22 @@ def parse_report(r, sites):
             o['lst'].append(e2); o['det'].append(sh2)
             o['nameok'] &= ok
         return o
+    # The wording is not one this parser knows (kind stays 'other').  The properties constrain the CONTENT of a report,
+    # not its wording, so the validator judges such a report by content only: which expectations it mentions by
+    # '<text> at <file>:<line>' (with their own text), which integers it prints, its severity and its location.
+    for mm in re.finditer(r' at ' + LOC, msg):
+        e, sh, v = sites.ent(mm.group(1), mm.group(2))
+        if e:
+            o['mentions'].append(e)
+            wants = [w for w in (v.get('name'), v.get('call'), v.get('obj')) if w]
+            if wants and not any(w in msg for w in wants):
+                o['textok'] = 0
+    if le and not o['mentions']:
+        v = sites.by_loc.get('%s:%s' % (os.path.basename(r['file']), r['line']))
+        wants = [w for w in (v.get('name'), v.get('call'), v.get('obj')) if w] if v else []
+        if wants and not any(w in msg for w in wants):
+            o['textok'] = 0
+    o['ints'] = sorted({int(x) for x in re.findall(r'-?\d{1,9}', msg)})[:60]      # every number the text prints (a superset of the argument values)
     return o
 
 def parse_trace_msg(t, sites):
